@@ -14,10 +14,13 @@ C30 driver (stateful).  Case lines (strings hex, `-` empty string, `_` empty lis
   conc-open <n> <host> <backends>                      concurrent TrackConnection/close    → peak= mid= final= least=
   conc-rr <n> <k> <host> <backends>                    concurrent round-robin picks        → counts=<b=c,…> next=<b>
   conc-rand <n> <k> <backends>                         concurrent random picks             → member
+  conc-ctr <rounds> <host> <backends>                  counter-drift probe: per backend one connection held; each round
+        closes it while the next one opens (all backends at once); counters read at every barrier
+        → barriers=<R> open=1 counts=<b:min:max,…> active=<min>:<max> final=<b:count,…> factive=<n>
 <parse>: `,`-separated `<addr>=!` | `<addr>=<parsed>:<port>` (Go's netutil.Parse / HostPort per address).
 The model output is the REPAIRED model's; random attempts are accepted as traces (any order the model allows).
 Verdict signatures: backend-tried-twice, attempt-never-ends, failed-before-all-tried, alien-backend,
-dial-after-success, strategy-order, active-count, rr-lost-update, rng-panic.
+dial-after-success, strategy-order, active-count, rr-lost-update, rng-panic, counter-drift.
 -/
 namespace Gate.C30
 open Gate
@@ -168,6 +171,43 @@ def insertSorted (x : String) : List String → List String
   | y :: t => if x < y then x :: y :: t else y :: insertSorted x t
 def sortStrings (xs : List String) : List String := xs.foldr insertSorted []
 
+/-- counter-drift probe on the model: one held connection per backend; a round closes it while the next opens
+    (one fixed interleaving — `counts_exact` / `barrier_counts` say every interleaving gives the same tables).
+    Returns the counter table and ActiveConnections at the barrier after `rounds` (≤ 2 simulated: all barriers are
+    equal) rounds, and both after everything was closed. -/
+def ctrProbeModel (host : Bytes) (l : List Addr) (rounds : Nat) : List Nat × Nat × List Nat × Nat :=
+  let n := l.length
+  let mk := fun (b : Addr) => ({ key := keyOf host b, backend := b } : Conn)
+  let y0 := sysRun { conns := l.map mk } ((List.range n) ++ (List.range n))
+  let round := fun (y : Sys) =>
+    -- live connections are the last n; append n new ones; interleave old.close₁, new.open₁, new.open₂, old.close₂
+    let base := y.conns.length - n
+    let y1 : Sys := { y with conns := y.conns ++ l.map mk }
+    let sched := (List.range n).flatMap (fun i => [base + i, base + n + i, base + n + i, base + i])
+    sysRun y1 sched
+  let yb := (List.range (min rounds 2)).foldl (fun y _ => round y) y0
+  let base := yb.conns.length - n
+  let yf := sysRun yb (((List.range n).map (· + base)) ++ ((List.range n).map (· + base)))
+  (l.map (fun b => yb.counters.count b), yb.active.length, l.map (fun b => yf.counters.count b), yf.active.length)
+
+def judgeCtr (nb : Nat) (impl : String) : String :=
+  let w := impl.splitOn " "
+  let get := fun (k : String) => (w.filterMap (kv · k)).head?
+  match get "counts=", get "active=", get "final=", get "factive=", get "open=" with
+  | some cs, some act, some fin, some fa, some k =>
+    let kN := k.toNat?.getD 1
+    let okCounts := (cs.splitOn ",").all (fun e => match e.splitOn ":" with
+      | [_, mn, mx] => mn.toNat? = some kN && mx.toNat? = some kN
+      | _ => false)
+    let okFinal := (fin.splitOn ",").all (fun e => match e.splitOn ":" with
+      | [_, v] => v.toNat? = some 0
+      | _ => false)
+    let okAct := (match act.splitOn ":" with
+      | [mn, mx] => mn.toNat? = some (nb * kN) && mx.toNat? = some (nb * kN)
+      | _ => false) && fa.toNat? = some 0
+    if !okCounts || !okFinal then "viol:counter-drift" else if !okAct then "viol:active-count" else "ok"
+  | _, _, _, _, _ => "viol:counter-drift"
+
 def step (d : DState) (c : Case) : DState × String × String :=
   match c.op, c.args with
   | "reset", _ => ({ defective := d.defective }, "ok", "-")
@@ -244,6 +284,16 @@ def step (d : DState) (c : Case) : DState × String × String :=
         k ++ "=" ++ toString (((cs.find? (fun p => toHex p.1 == k)).map (·.2)).getD 0))
       let out := "counts=" ++ ",".intercalate parts ++ " next=" ++ toHex (l.getD ((n * k) % l.length) [])
       (d, out, if c.impl = out then "ok" else if c.impl = "panic" then "viol:rng-panic" else "viol:rr-lost-update")
+    | _, _, _ => (d, "bad-op", "-")
+  | "conc-ctr", [r, h, bs] => match r.toNat?, parseHex h, parseList bs with
+    | some rounds, some h, some l =>
+      if l.isEmpty then (d, "bad-op", "-") else
+      let (tb, ab, tf, af) := ctrProbeModel h l rounds
+      let pair := fun (xs : List Nat) (both : Bool) => ",".intercalate ((l.zip xs).map (fun p =>
+        toHex p.1 ++ ":" ++ toString p.2 ++ (if both then ":" ++ toString p.2 else "")))
+      let out := "barriers=" ++ toString rounds ++ " open=1 counts=" ++ pair tb true ++ " active=" ++ toString ab ++ ":" ++
+        toString ab ++ " final=" ++ pair tf false ++ " factive=" ++ toString af
+      (d, out, judgeCtr l.length c.impl)
     | _, _, _ => (d, "bad-op", "-")
   | "conc-rand", _ => (d, "member", if c.impl = "member" then "ok" else if c.impl = "panic" then "viol:rng-panic" else "viol:alien-backend")
   | _, _ => (d, "bad-op", "-")
